@@ -418,6 +418,14 @@ _DESCRIBED = [0]
 def judge(ctx, o, text, v, bl2, ol, om, bl, negative, case, bm=()):
     ctx.evaluated()
     parser = parser_for(o)
+    if len(text) % 7 == 3:
+        # the long-lived parser was used a moment ago to look at a fragment (the documented keyword that names
+        # the symbol to start from): the next ordinary parse gives what it always gives
+        try:
+            parser.parse(ATOMS[len(text) % len(ATOMS)], start_symbol_name=('VALUE', 'ITEM')[len(text) % 2])
+            ctx.count("fragments_parsed_from_another_start_symbol_in_between")
+        except llparser.Error:
+            ctx.count("fragments_refused(not judged)")
     try:
         t = parser.parse(text)
     except llparser.ParsingError as err:
@@ -747,6 +755,51 @@ def template_start_case(ctx, rng):
         ctx.violation("value-differs-from-data", {"got": repr(got)[:300], "expected": repr(want_of(data))[:300]}, case)
 
 
+_DOC_PARSER = []
+
+
+def doc_comment_case(ctx, rng):
+    """a language with two kinds of comments: '#...' is skipped (it is called COMMENT), '!!...' documents the next item
+    and is a token of the grammar (it is called COMMENT_DOC); skip_tokens is left at its default"""
+    if not _DOC_PARSER:
+        _DOC_PARSER.append(llparser.LLParser(
+            r"(?P<SPACE>\s+)|(?P<COMMENT>\#.*)|(?P<COMMENT_DOC>!![a-z ]*)|(?P<WORD>[a-z0-9]+)|(?P<BO>\[)|(?P<BC>\])"
+            r"|(?P<COMMA>,)|(?P<CO>\{)|(?P<CC>\})|(?P<COLON>:)",
+            synonyms={'BO': '[', 'BC': ']', 'COMMA': ',', 'CO': '{', 'CC': '}', 'COLON': ':'},
+            productions={'E': [('LIST', 'MAP')],
+                         'LIST': ListProds('[', 'ITEM', ',', ']'),
+                         'ITEM': [('WORD',), ('COMMENT_DOC',)],
+                         'MAP': llparser.MapProds('{', 'WORD', ':', 'ITEM', ',', '}')}))
+    ctx.evaluated()
+    items = [rng.choice(["a", "7", "!!the doc", "!!", "!!x"]) for _ in range(rng.choice([0, 1, 2, 3, 6]))]
+    pairs = [(rng.choice(["k", "m", "n"]), rng.choice(["v", "!!why", "!!"])) for _ in range(rng.choice([0, 1, 2, 3]))]
+
+    def line_end(x):
+        # (a documentation comment runs to the end of its line)
+        return x + (rng.choice(["\n", "# note\n", "\n  "]) if x.startswith("!!") else ws(rng))
+
+    text = "[" + ws(rng) + ("," + ws(rng)).join(line_end(x) for x in items) + "]" + sep(rng) + \
+        "{" + ws(rng) + ("," + ws(rng)).join(k + ws(rng) + ":" + ws(rng) + line_end(v) for k, v in pairs) + "}"
+    case = {"options": {"doc_comments": True}, "text": text}
+    try:
+        got = norm(_DOC_PARSER[0].parse(text))
+    except Exception as err:
+        ctx.violation("valid-text-rejected", {"type": type(err).__name__, "msg": str(err)[:200]}, case)
+        return
+    ctx.count("texts_with_documentation_comments_parsed")
+    want = ('TE', 'E', [list(items), ('DICT', list(dict(pairs).items()))])
+    if got != want:
+        ctx.violation("value-differs-from-data", {"got": repr(got)[:300], "expected": repr(want)[:300]}, case)
+
+
+FAMILIES = {"start_symbol_is_a_template": lambda ctx, rng: template_start_case(ctx, rng),
+            "doc_comments": lambda ctx, rng: doc_comment_case(ctx, rng),
+            "command_line": lambda ctx, rng: command_line_case(ctx, rng),
+            "keywords_and_quoted_strings": lambda ctx, rng: keyword_case(ctx, rng),
+            "nothing_skipped": lambda ctx, rng: blank_delimited_case(ctx, rng),
+            "shared_any_token_except": lambda ctx, rng: shared_any_case(ctx, rng)}
+
+
 def run_shard(ctx):
     for i in range(ctx.cases):
         rng = ctx.rng(i)
@@ -763,6 +816,8 @@ def run_shard(ctx):
                 shared_any_case(ctx, rng)
             for _ in range(6):
                 command_line_case(ctx, rng)
+            for _ in range(6):
+                doc_comment_case(ctx, rng)
         o = gen_options(rng)
         try:
             mk_parser(o)
@@ -808,11 +863,11 @@ def _detuple(v):
 
 
 def replay(ctx, case):
-    kind = (case.get("options") or {}).get("start_symbol_is_a_template")
-    if kind:
+    family = [f for f in FAMILIES if f in (case.get("options") or {})]
+    if family:
         import random
         for k in range(300):     # (the data is not recorded: the family is small, it is simply run again)
-            template_start_case(ctx, random.Random(k))
+            FAMILIES[family[0]](ctx, random.Random(k))
         return
     om = case["om"]
     if om is not None:
